@@ -287,7 +287,7 @@ func (ex *Exec) localByName(env *Env, name string) *Value {
 	fn := env.fr.fn
 	obj := ex.prog.lookupLocal(fn, name, env.pos)
 	if obj == nil {
-		return nil
+		return ex.freeVarByName(env, name)
 	}
 	a := ex.prog.allocFor(fn, obj)
 	if a == nil {
@@ -298,16 +298,7 @@ func (ex *Exec) localByName(env *Env, name string) *Value {
 			}
 		}
 		// variable of an enclosing function captured by this closure
-		for i, fv := range fn.FreeVars {
-			if fv.Name() == name && i < len(env.fr.freeVars) {
-				cell := env.fr.freeVars[i]
-				if _, isPtr := cell.T.Underlying().(*types.Pointer); isPtr {
-					return ex.loadRaw(env.localsState(), ex.resolve(cell))
-				}
-				return cell
-			}
-		}
-		return nil
+		return ex.freeVarByName(env, name)
 	}
 	if cell, ok := env.localsState().locals[a]; ok {
 		return cell
@@ -317,6 +308,20 @@ func (ex *Exec) localByName(env *Env, name string) *Value {
 		return ex.loadRaw(env.st, ex.resolve(r))
 	}
 	// free variable of an enclosing function (closure): not supported in specs
+	return nil
+}
+
+func (ex *Exec) freeVarByName(env *Env, name string) *Value {
+	fn := env.fr.fn
+	for i, fv := range fn.FreeVars {
+		if fv.Name() == name && i < len(env.fr.freeVars) {
+			cell := env.fr.freeVars[i]
+			if _, isPtr := cell.T.Underlying().(*types.Pointer); isPtr {
+				return ex.loadRaw(env.localsState(), ex.resolve(cell))
+			}
+			return cell
+		}
+	}
 	return nil
 }
 
